@@ -106,11 +106,43 @@ def spki(pub):
 ALG = D.enc_seq(D.enc_oid(D.OID_SM2SIGN_SM3))
 
 
-def tbs(serial, issuer, not_before, not_after, subject, pub, exts=(), version=2, alg=None):
+def spki_shaped(pub, shape):
+    """SubjectPublicKeyInfo that is well-formed DER but does not hold a usable SM2 public key"""
+    x, y = M.i2b(pub[0]), M.i2b(pub[1])
+    sm2 = D.enc_seq(D.enc_oid(D.OID_EC_PUBLIC_KEY), D.enc_oid(D.OID_SM2))
+    if shape == "off-curve":
+        return D.enc_seq(sm2, D.enc_bits(b"\x04" + x + M.i2b(pub[1] ^ 1)))
+    if shape == "off-curve-x":
+        return D.enc_seq(sm2, D.enc_bits(b"\x04" + M.i2b(pub[0] ^ (1 << 77)) + y))
+    if shape == "all-zero":
+        return D.enc_seq(sm2, D.enc_bits(b"\x04" + bytes(64)))
+    if shape == "no-prefix":
+        return D.enc_seq(sm2, D.enc_bits(x + y))
+    if shape == "prefix-05":
+        return D.enc_seq(sm2, D.enc_bits(b"\x05" + x + y))
+    if shape == "short":
+        return D.enc_seq(sm2, D.enc_bits(b"\x04" + x + y[:-1]))
+    if shape == "long":
+        return D.enc_seq(sm2, D.enc_bits(b"\x04" + x + y + b"\x00"))
+    if shape == "empty":
+        return D.enc_seq(sm2, D.enc_bits(b""))
+    if shape == "curve-p256":
+        return D.enc_seq(D.enc_seq(D.enc_oid(D.OID_EC_PUBLIC_KEY), D.enc_oid(bytes.fromhex("2A8648CE3D030107"))), D.enc_bits(b"\x04" + x + y))
+    if shape == "no-curve":
+        return D.enc_seq(D.enc_seq(D.enc_oid(D.OID_EC_PUBLIC_KEY)), D.enc_bits(b"\x04" + x + y))
+    if shape == "alg-unknown":
+        return D.enc_seq(D.enc_seq(D.enc_oid(bytes.fromhex("2A811CCF55018767")), D.enc_oid(D.OID_SM2)), D.enc_bits(b"\x04" + x + y))
+    raise KeyError(shape)
+
+
+SPKI_SHAPES = ["off-curve", "off-curve-x", "all-zero", "no-prefix", "prefix-05", "short", "long", "empty", "curve-p256", "no-curve", "alg-unknown"]
+
+
+def tbs(serial, issuer, not_before, not_after, subject, pub, exts=(), version=2, alg=None, spki_der=None):
     items = []
     if version is not None and version != 0:
         items.append(D.enc_explicit(0, D.enc_uint(version)))
-    items += [D.enc_uint(serial), alg or ALG, issuer, D.enc_seq(enc_time(not_before), enc_time(not_after)), subject, spki(pub)]
+    items += [D.enc_uint(serial), alg or ALG, issuer, D.enc_seq(enc_time(not_before), enc_time(not_after)), subject, spki_der or spki(pub)]
     if exts:
         items.append(D.enc_explicit(3, D.enc_seq(*exts)))
     return D.enc_seq(*items)
